@@ -22,6 +22,7 @@ mod priv_check { include!("/repo/src/uploading/check.rs"); }
 mod priv_upconfig { include!("/repo/src/uploading/config.rs"); pub fn ext_parse_duration(s: &str) -> Option<u64> { parse_duration(s).ok().map(|d| d.as_secs()) } }
 mod priv_config { include!("/repo/src/config.rs"); pub fn ext_validate_path(p: &str) -> Option<String> { validate_path(p).ok() } pub fn ext_validate_local_path(p: &str) -> Option<String> { validate_local_path(p).ok() } }
 mod priv_sync { include!("/repo/src/uploading/sync.rs"); }
+mod priv_encryptor { include!("/repo/src/storage/encryptor.rs"); include!("priv_encryptor_ext.rs"); }
 
 mod ops;
 
